@@ -1,5 +1,9 @@
+#![allow(dead_code)]
 mod checks;
 mod common;
+mod gen;
+mod project;
+mod progs;
 mod reflex;
 mod soup;
 
@@ -13,6 +17,7 @@ fn usage() -> ! {
 
 fn run_check(id: &str, tier: Tier) -> Option<Report> {
     Some(match id {
+        "C04" => checks::c04::run(tier),
         "C06" => checks::c06::run(tier),
         "C07" => checks::c07::run(tier),
         _ => return None,
@@ -21,6 +26,7 @@ fn run_check(id: &str, tier: Tier) -> Option<Report> {
 
 fn replay_case(id: &str, case: &Value) -> Option<Vec<Failure>> {
     Some(match id {
+        "C04" => checks::c04::replay(case),
         "C06" => checks::c06::replay(case),
         "C07" => checks::c07::replay(case),
         _ => return None,
